@@ -621,6 +621,8 @@ dt_strpdt(const char *str, const char *fmt, char **ep)
 	if (LIKELY(fmt == NULL)) {
 		return __strpdt_std(str, ep);
 	}
+	/* no epoch stamp seen so far, 0 is a valid one */
+	d.i = INT64_MIN;
 	/* translate high-level format names, for sandwiches */
 	switch ((dt_dtyp_t)__trans_dtfmt(&fmt)) {
 		char *on;
@@ -756,7 +758,7 @@ dt_strpdt(const char *str, const char *fmt, char **ep)
 		goto fucked;
 	}
 	/* check if it's a sexy type */
-	if (d.i) {
+	if (d.i != INT64_MIN) {
 		res.typ = DT_SEXY;
 		res.sexy = d.i;
 	} else {
